@@ -33,6 +33,34 @@ class Lemma:
         self.unwind = unwind
 
 
+class ScopeEnd:
+    """Rule D5: `MARK(x);` followed somewhere by the end of its enclosing block gets `CLOSE(x);` inserted before that
+    closing brace (lock_guard unlock, destructor of a local).  marker_re must capture the variable as group 1."""
+
+    def __init__(self, name, marker_re, close_fmt):
+        self.name, self.re, self.close_fmt = name, re.compile(marker_re), close_fmt
+
+    def apply(self, text):
+        n, pos = 0, 0
+        while True:
+            m = self.re.search(text, pos)
+            if not m:
+                return text, n
+            n += 1
+            depth, i = 0, m.end()
+            while i < len(text):
+                if text[i] == "{":
+                    depth += 1
+                elif text[i] == "}":
+                    if depth == 0:
+                        break
+                    depth -= 1
+                i += 1
+            ins = "\n    " + self.close_fmt.replace("%s", m.group(1)) + "\n"
+            text = text[:i] + ins + text[i:]
+            pos = m.end()
+
+
 class Unit:
     def __init__(self, name, src):
         self.name, self.src = name, src
@@ -40,6 +68,7 @@ class Unit:
         self.lemmas = []
         self.rules = []          # unit-wide rules applied after the function's own
         self.prelude = ""        # C text emitted before the functions (struct definitions)
+        self.shared_decls = ""   # generated declarations visible to the harness/lemma file too (prelude_gen.h)
         self.stubs = []          # names of nitro_rt functions with assumed contracts
         self.members = {}        # class key -> [(type, name, default)]
         self.member_init = {}    # class key -> callable(type, name, expr|None) -> C statement
@@ -82,12 +111,13 @@ class Unit:
         text = apply_rules(text, f.pre, fired)
         text = apply_rules(text, f.rules, fired)
         text = apply_rules(text, self.rules, fired)
+        text = apply_rules(text, getattr(f, "post", []), fired)
         if f.ret_ref:
             text, n = re.subn(r"\breturn\s+([^;]+);", r"return &(\1);", text)
             fired["D3.return-reference"] = fired.get("D3.return-reference", 0) + n
         text, f.loops = annotate_loops(text, f.name)
         for mf in f.must_fire:
-            if not fired.get(mf):
+            if not any(fired.get(alt) for alt in mf.split("|")):
                 raise ExtractionError("%s: rule %s was expected to fire (source shape changed)" % (f.name, mf))
         for k, v in fired.items():
             self.fired[k] = self.fired.get(k, 0) + v
@@ -128,7 +158,7 @@ class Unit:
         return "\n" + "\n".join("    " + l for l in lines) + "\n"
 
     def generate(self):
-        parts = ['#include "nitro_rt.h"\n#include "contracts.h"\n', self.prelude]
+        parts = ['#include "nitro_rt.h"\n#include "contracts.h"\n#include "prelude_gen.h"\n', self.prelude]
         bodies = []
         for f in self.functions:
             bodies.append(self.render_function(f))
